@@ -201,6 +201,11 @@ def scenarios(tier, seed):
     # a plotfile whose binary files are larger than 2 and 4 GiB (sparse files): byte offsets that do not fit 32 bits
     out.append({"kind": "menu", "seed": seed * 1000 + 1290, "names": ["density", "temp", "Y(H2)"], "ndims": 3, "nlevels": 2, "nfiles": 1,
                 "layout": "shuffled", "time": 0.5, "n0": [16, 16, 8], "large_offsets": True})
+    # marinate, then the plotfile rewritten IN PLACE with other values (same file names), then the header-only tools again
+    out.append({"kind": "menu", "seed": seed * 1000 + 1291, "names": ["density", "temp", "Y(H2)"], "ndims": 3, "nlevels": 2, "nfiles": 2,
+                "layout": "monotone", "time": 0.5, "n0": [16, 16, 8],
+                "then": {"kind": "menu", "seed": seed * 1000 + 1292, "names": ["density", "temp", "Y(H2)"], "ndims": 3, "nlevels": 2, "nfiles": 2,
+                         "layout": "monotone", "time": 0.75, "n0": [16, 16, 8], "in_place": True}})
     return out
 
 
